@@ -1,7 +1,7 @@
 (* C19: the correspondence cases written by the harness (harness/src/c19.rs) and their checker.  Definitions only. *)
 From ZV.Common Require Import Base Run.
 Require ZV.C03.Model ZV.C03.ModelStore ZV.C03.ModelPlain.
-From ZV.C19 Require Import Model ModelZo ModelPlainDir ModelMvOps ModelRoW.
+From ZV.C19 Require Import Model ModelZo ModelPlainDir ModelMvOps ModelRoW ModelMvHist.
 Open Scope N_scope.
 
 (* the builder configuration the harness uses: compress_level 0, the given checksum level, default offset configuration *)
@@ -29,8 +29,11 @@ Inductive xcase :=
 | XPlainHist (ops : list phop) (trace : list nfop)            (* traced operations of a PlainBlobStore history *)
 | XMvOps (es ic : N) (sow : bool) (gtab : list (N * N)) (ops : list mvop) (expect : list (list N)) (final : list N)
     (* MmapVec history: [len; capacity; file length] after each operation, the elements at the end *)
-| XMmio (initial : N) (ops : list mmop) (expect : list (list N)) (file : list N).
+| XMmio (initial : N) (ops : list mmop) (expect : list (list N)) (file : list N)
     (* MemoryMappedOutput history: [position; capacity] after each operation, the file at the end *)
+| XMvUnits (es ic : N) (trace : list fop).
+    (* all traced file operations of a MmapVec history (vector file 1, temporary 2): create, then syncs and
+       resize_to_capacity units whose images pass the decidable well-formedness check of the history theorem *)
 
 Fixpoint eqb_lln (a b : list (list N)) : bool :=
   match a, b with
@@ -98,5 +101,15 @@ Definition xcase_ok (c : xcase) : bool :=
       match mo_trace (mo_create initial) ops with
       | (r, Some s) => eqb_lln r expect && eqb_ln (o_file s) file
       | (_, None) => false
+      end
+  | XMvUnits es ic trace =>
+      match trace with
+      | c1 :: c2 :: c3 :: rest =>
+          ops_eqb [c1; c2; c3] (mv_create_ops 1 (MV_HEADER + ic * es))
+          && match parse_units rest with
+             | Some us => forallb (unit_okb es) us && forallb (unit_shape_okb es) us
+             | None => false
+             end
+      | _ => false
       end
   end.
